@@ -350,6 +350,14 @@ class Codec:
                     # pop the completed group off the stack
                     del repeating_groups[-1]
 
+                if not repeating_groups:
+                    # all groups are completed, it is ordinary tag of the message
+                    if tag in decoded_msg:
+                        decoded_msg.set(tag, RepeatingTagError)
+                    else:
+                        decoded_msg.set(tag, value)
+                    continue
+
                 if tag in current_context.tags:
                     # if the repeating group already contains this field,
                     #     start the next
